@@ -20,7 +20,7 @@ for p in ALL:
         'replay_cmd_template': './check %s --explain {path}' % p,
         'engine': 'mirfacts+absint',
         'level_claimed': {'category': spec['level'], 'text': spec['claim'] if 'claim' in spec else spec['explanation'], 'design_ref': 'DESIGN.md §6 ' + p},
-        'level_note': spec.get('note', props.DEFAULT_NOTE),
+        'level_note': spec.get('note', props.DEFAULT_NOTE) + ' NOT DECIDED by this check: ' + spec.get('undecided', 'see DESIGN.md') + '.',
         'technique': spec.get('technique', 'static analysis: abstract interpretation of rustc MIR (effect summaries, term/interval domains) compared with spec tables'),
     })
 m = {
